@@ -1,8 +1,10 @@
 package semkit
 
 import (
+	"os"
 	"runtime"
 	"sort"
+	"strconv"
 	"strings"
 	"time"
 
@@ -97,4 +99,13 @@ func GoroutineDump(needle string) string {
 		out = out[:12]
 	}
 	return strings.Join(out, "\n\n")
+}
+
+// HangLimit is how long a call with a 30 s deadline may take before it is
+// reported as hung (VERIF_HANG_S overrides the default of 45 s).
+func HangLimit() time.Duration {
+	if v, err := strconv.Atoi(os.Getenv("VERIF_HANG_S")); err == nil && v > 0 {
+		return time.Duration(v) * time.Second
+	}
+	return 45 * time.Second
 }
